@@ -262,7 +262,7 @@ def random_scenario(rng):
     w, h = rng.choice(SHAPES)
     chips = [(x, y) for x in range(w) for y in range(h)]
     ncores = {xy: rng.choice((18, 18, 17, 5, 3)) for xy in chips}
-    buf = rng.choice((16, 16, 32, 64, 128, 256))
+    buf = rng.choice((16, 16, 32, 64, 128, 256, 512))
     nb = rng.choice((1, 1, 2, 2, 3))
     usecount = rng.random() < 0.5
     # all application cores of the machine, dealt to the binaries / to earlier loads / left alone
@@ -302,6 +302,17 @@ def random_scenario(rng):
             sub.setdefault(xy, set()).add(p)
         if sub:
             pre.append((make_binary(rng, buf) if rng.random() < 0.7 else bins[0][0], sub))
+    # count mode with MORE foreign waiting cores than requested cores: the count can then never equal the number
+    # requested, so the documented shortcut cannot be fooled and the per-core check must decide (the coincidence
+    # "foreign + loaded = requested" is the documented precondition of use_count and stays outside the domain)
+    nreq = sum(len(ps) for _, tg in bins for ps in tg.values())
+    if usecount and not pre and rng.random() < 0.4:
+        free = [(xy, p) for (xy, p) in cores if (xy, p) not in taken]
+        if len(free) > nreq:
+            sub = {}
+            for (xy, p) in free[:nreq + rng.randint(1, 3)]:
+                sub.setdefault(xy, set()).add(p)
+            pre.append((make_binary(rng, buf), sub))
     ntries = rng.choice((0, 1, 2, 2, 3))
     pm = rng.choice((0.0, 0.15, 0.4, 0.7, 1.0))
     miss = [[xy for xy in chips if rng.random() < pm] for _ in range((ntries + 1) * nb)]
@@ -378,7 +389,7 @@ def run(chk):
                 "n_tries 0..3; fill counter started at 0/1/60/124..126) against the simulated machine: (1) every effective "
                 "per-fill schedule of missing chips for one binary on 3 chips with 1..3 attempts, two binaries on 2 chips, "
                 "and 2 chips with cores already waiting from earlier loads; (2) random machines of 1..20 chips with 3..18 "
-                "cores, buffers of 16..256 bytes, 1..3 binaries of whole words around multiples of the buffer size "
+                "cores, buffers of 16..512 bytes, 1..3 binaries of whole words around multiples of the buffer size "
                 "(sometimes with equal contents), sparse and block-dense targets, random miss schedules, earlier loads "
                 "of the same application id; non-trivial = some targeted chip misses a fill that was sent, or cores "
                 "were already waiting; distinct = distinct (machine, arguments, binaries, effective schedule, earlier state)")
@@ -396,9 +407,11 @@ def run(chk):
         "a requested core is idle before the call, or already waits under the application id holding the binary now "
         "requested for it; a requested core waiting with another binary is outside the domain (load_application's "
         "per-core check reads only cpu_state) - LoadAppDesign_overwrite.cfg shows the property fails there",
-        "use_count=True only when no core outside the request waits under the application id (documented: 'the "
-        "targets dictionary will be assumed to represent all the cores that will be loaded') - "
-        "LoadAppDesign_foreigncount.cfg shows the property fails without it",
+        "use_count=True with cores outside the request already waiting under the application id is exercised only "
+        "when there are MORE such cores than requested ones (the count shortcut then cannot fire and the per-core "
+        "check decides); the coincidence 'foreign + loaded = requested' violates the documented precondition of "
+        "use_count ('the targets dictionary will be assumed to represent all the cores that will be loaded') and "
+        "stays outside the domain - LoadAppDesign_foreigncount.cfg shows the property fails there",
         "AttemptsBounded takes n_tries as the number of re-tries (at most n_tries + 1 attempts, as coded); the "
         "docstring's 'number of attempts' would be n_tries",
         "the simulator's flood-fill, count, signal and state-read effects are validated against LoadApp.tla in every trace",
